@@ -1119,13 +1119,13 @@ func runHistory(c *vlib.Ctx, caseID string, i int, r *vlib.Rand) {
 	defLic := genLicense(r)
 	ovrLic := genLicense(r)
 
-	pr, err := newPeer(nil, 0)
+	col, err := getCollector() // the shard's long-lived listener: one connection per history
 	if err != nil {
 		c.Inconclusive(caseID, "cannot listen on loopback: "+err.Error())
 		c.Eval(-1)
 		return
 	}
-	copts := []oneway.OneWayTcpClientOption{oneway.WithServers([]string{pr.addr}), oneway.WithLicense(defLic), oneway.WithPcode(r.I64()), oneway.WithOid(r.I32())}
+	copts := []oneway.OneWayTcpClientOption{oneway.WithServers([]string{col.addr}), oneway.WithLicense(defLic), oneway.WithPcode(r.I64()), oneway.WithOid(r.I32())}
 	if queued {
 		copts = append(copts, oneway.WithUseQueue())
 	}
@@ -1196,22 +1196,16 @@ func runHistory(c *vlib.Ctx, caseID string, i int, r *vlib.Rand) {
 			h.afterWrite()
 		}
 	}
+	local := clientLocalAddr(cl)
 	cl.VerifCloseLocked()
 	cl.VerifCancel()
-	conns, ok := pr.finish()
-	if !ok || sendErr != "" || len(conns) != 1 {
-		pr.abandon()
-		reason := "watchdog: the peer did not see EOF of the client connection"
-		if sendErr != "" {
-			reason = "send on a healthy loopback connection failed: " + sendErr
-		} else if ok {
-			reason = fmt.Sprintf("%d connections instead of one", len(conns))
-		}
+	data, reason := collectOne(col, local, sendErr)
+	if reason != "" {
+		resetCollector()
 		c.Inconclusive(caseID, reason)
 		c.Eval(-1)
 		return
 	}
-	data := conns[0].data
 	off := 0
 	allOK := imagesOK
 	for k, sd := range sends {
@@ -1274,4 +1268,23 @@ func historyText(sends []histSend) []string {
 	return out
 }
 
-var _ = time.Second
+
+// collectOne takes the byte stream of the one connection a case made to the shard's collector
+// (the client has closed it). reason != "": the case cannot be judged.
+func collectOne(col *collector, local, sendErr string) (data []byte, reason string) {
+	if sendErr != "" || local == "" {
+		return nil, "send on a healthy loopback connection failed: " + sendErr
+	}
+	select {
+	case res := <-col.results:
+		if res.remote != local {
+			return nil, fmt.Sprintf("the peer's connection %s is not the client's %s", res.remote, local)
+		}
+		if res.err != nil {
+			return nil, "the peer's read ended with " + res.err.Error() + " instead of EOF"
+		}
+		return res.data, ""
+	case <-time.After(watchdog):
+		return nil, "watchdog: the peer did not see EOF of the client connection"
+	}
+}
